@@ -93,10 +93,12 @@ class _Base:
     def count(self, name, n=1):
         self.stats[name] += n
 
-    def fail(self, vclass, witness, kind=None):
+    def fail(self, vclass, witness, kind=None, got=None):
         sig = {"machine": self.machine, "op": kind or (self.cur or {}).get("k", "?")}
         if self.ctx:
             sig["ctx"] = self.ctx
+        if got:
+            sig["got"] = got  # wrong-error: type of the unexpected exception
         w = {"step": self.step, "op": self.cur}
         w.update(witness)
         v = core.Violation(self.prop, vclass, w, sig)
@@ -116,11 +118,11 @@ class _Base:
         type names."""
         if errs is None:
             if not ok:
-                self.fail("wrong-error", {"what": what, "expected": "no error", "got": _exc_str(val)})
+                self.fail("wrong-error", {"what": what, "expected": "no error", "got": _exc_str(val)}, got=type(val).__name__)
         elif ok:
-            self.fail("wrong-error", {"what": what, "expected": list(errs), "got": "no error"})
+            self.fail("wrong-error", {"what": what, "expected": list(errs), "got": "no error"}, got="no-error")
         elif not any(t.__name__ in errs for t in type(val).__mro__):
-            self.fail("wrong-error", {"what": what, "expected": list(errs), "got": _exc_str(val)})
+            self.fail("wrong-error", {"what": what, "expected": list(errs), "got": _exc_str(val)}, got=type(val).__name__)
 
     def begin(self, i, op):
         self.step = i
@@ -462,7 +464,7 @@ class RefDriver(_Base):
             except StopIteration:
                 return True
             except Exception as e:  # noqa: BLE001
-                self.fail("wrong-error", {"what": "get_references generator", "expected": "no error", "got": _exc_str(e), "yielded": list(got)})
+                self.fail("wrong-error", {"what": "get_references generator", "expected": "no error", "got": _exc_str(e), "yielded": list(got)}, got=type(e).__name__)
             pulled += 1
             si = self.sidx.get(id(sym))
             if si is None:
@@ -1007,6 +1009,7 @@ class RetDriver(_Base):
                 self.ir.cfg = self.orig
             else:
                 self.ir.cfg = self.cache
+            self.bound_obj = self.ir.cfg
             m.apply(op)
             self.count("fault.ir_cfg_rebound")
         else:
@@ -1040,11 +1043,11 @@ class RetDriver(_Base):
         m = self.model
         self.injected = None
         out = None
-        bound_before = self.ir.cfg
         try:
             with self.cache_mod.make_return_cache(self.ir) as c:
                 if depth == 1:
                     self.cache = c
+                    self.bound_obj = c
                     if not isinstance(c, self.cache_mod.ReturnEdgeCache) or self.ir.cfg is not c:
                         self.fail("returncache-diff", {"what": "ir.cfg is not the yielded ReturnEdgeCache inside the context"})
                 else:
@@ -1068,7 +1071,7 @@ class RetDriver(_Base):
             # an inner context never restores or reports anything
             if out is not inj:
                 self.fail("wrong-error", {"what": "leaving a nested context", "expected": "the body's exception" if inj else "no error", "got": _exc_str(out) if out else "no error"})
-            if self.ir.cfg is not bound_before:
+            if self.ir.cfg is not self.bound_obj:
                 self.fail("returncache-diff", {"what": "leaving a nested context changed ir.cfg"})
             if inj is not None:
                 m.leave(1)
@@ -1485,11 +1488,824 @@ class LinkedListDriver(_Base):
 
 def _gen_linkedlist(r, params):
     n = r.randint(2, 7)
+    m = ChainModel(n, all_singletons=True)
     ops = []
     for _ in range(r.randint(3, params.get("max_ops", MAX_OPS))):
-        if r.random() < 0.65:
-            a, b = r.sample(range(n), 2)
+        single = [ch[0] for ch in m.chains if len(ch) == 1]
+        if r.random() < 0.6:
+            b = r.choice(single) if single and r.random() < 0.85 else r.randrange(n)
+            a = r.choice([x for x in range(n) if x != b])
             ops.append({"k": "insert_after", "a": a, "n": b})
+            chn = m.find(b)
+            if len(chn) == 1:
+                m.chains.remove(chn)
+                ch = m.find(a)
+                ch.insert(ch.index(a) + 1, b)
         else:
-            ops.append({"k": "unlink", "a": r.randrange(n)})
+            linked = [x for ch in m.chains if len(ch) > 1 for x in ch]
+            a = r.choice(linked) if linked and r.random() < 0.85 else r.randrange(n)
+            ops.append({"k": "unlink", "a": a})
+            ch = m.find(a)
+            if len(ch) > 1:
+                ch.remove(a)
+                m.chains.append([a])
     return {"n": n}, ops
+
+
+# ==========================================================================
+# 4. OffsetMapping vs a dictionary of dictionaries
+# ==========================================================================
+
+OM_BAD = [5, "x", [1], None, (1, 2)]
+OM_BAD_PICK = [0, 0, 0, 1, 1, 1, 2, 2, 2, 3, 3, 3, 4]
+OM_DISPS = 4
+_MISSING = object()
+
+
+class OMModel:
+    """Literally a dict of dicts; inner dict objects are shared with the
+    'held' dicts the caller passed in, exactly like the real thing."""
+
+    def __init__(self, setup):
+        self.elems = setup["elems"]
+        self.data = {}
+        self.held = [dict((int(d), v) for d, v in h) for h in setup["held"]]
+
+    def canon(self, e):
+        el = self.elems[e]
+        return ("uuid", el["v"]) if el["t"] == "uuid" else ("node", e)
+
+    # each method returns (errs | None, value)
+    def getitem(self, key):
+        if key[0] == "off":
+            e, d = self.canon(key[1]), key[2]
+            if e in self.data and d in self.data[e]:
+                return None, self.data[e][d]
+            return ("KeyError",), None
+        e = self.canon(key[1])
+        if e in self.data:
+            return None, self.data[e]
+        return ("KeyError",), None
+
+    def setitem(self, key, value):
+        """value: for 'off' keys a plain value; for 'elem' keys ('slot', j) or ('bad', i)"""
+        if key[0] == "off":
+            self.data.setdefault(self.canon(key[1]), {})[key[2]] = value
+            return None, None
+        if value[0] == "bad":
+            return ("ValueError",), None
+        self.data[self.canon(key[1])] = self.held[value[1]]
+        return None, None
+
+    def delitem(self, key):
+        errs, _ = self.getitem(key)
+        if errs:
+            return errs, None
+        if key[0] == "off":
+            del self.data[self.canon(key[1])][key[2]]
+        else:
+            del self.data[self.canon(key[1])]
+        return None, None
+
+    def offsets(self):
+        return [(e, d) for e, sub in self.data.items() for d in sub]
+
+    def flat(self):
+        return {(e, d): v for e, sub in self.data.items() for d, v in sub.items()}
+
+
+class OMDriver(_Base):
+    machine = "offsetmap"
+
+    def build(self):
+        import gtirb
+        from gtirb_rewriting._adt import OffsetMapping
+
+        self.gtirb = gtirb
+        self.model = OMModel(self.setup)
+        self.elems = []
+        for e, el in enumerate(self.setup["elems"]):
+            if el["t"] == "uuid":
+                self.elems.append(_uuid.UUID(int=el["v"] + 1))
+            else:
+                self.elems.append(gtirb.DataBlock())
+        self.canon_of = {}
+        for e, obj in enumerate(self.elems):
+            self.canon_of[obj if isinstance(obj, _uuid.UUID) else id(obj)] = self.model.canon(e)
+        self.held = [dict(h) for h in self.model.held]
+        init = self.setup.get("init") or []
+        if init:
+            items, mitems = self.items_of(init, self.setup.get("init_form"))
+            arg = dict(items) if self.setup.get("init_form") == "dict" else items
+            ok, val = self.lib(OffsetMapping, arg)
+            self.cur = {"k": "ctor"}
+            self.expect(ok, val, None, "constructor")
+            self.m = val
+            for key, value in mitems:
+                self.model.setitem(key, value)
+        else:
+            self.m = OffsetMapping()
+
+    def legal(self, op):
+        ne, nh = len(self.setup["elems"]), len(self.setup["held"])
+
+        def key_ok(key):
+            return 0 <= key[1] < ne
+
+        k = op["k"]
+        if "key" in op and not key_ok(op["key"]):
+            return False
+        if "slot" in op and not 0 <= op["slot"] < nh:
+            return False
+        if "bad" in op and not 0 <= op["bad"] < len(OM_BAD):
+            return False
+        if k == "update":
+            for it in op["items"]:
+                if not key_ok(it[0]):
+                    return False
+                if it[0][0] == "elem" and not 0 <= it[1] < nh:
+                    return False
+        if k in ("set_bad", "setdefault_bad") and (op["key"][0] != "elem" or "bad" not in op):
+            return False
+        return k in ("set", "set_bad", "setdefault_bad", "get", "del", "has", "sub_set", "sub_del", "held_set", "held_del", "mget", "pop", "setdefault", "update", "popitem", "clear")
+
+    def rkey(self, key):
+        if key[0] == "off":
+            return self.gtirb.Offset(self.elems[key[1]], key[2])
+        return self.elems[key[1]]
+
+    def items_of(self, items, form):
+        """items: [[key, value-or-slot], ...] -> (real pairs, model pairs).
+        For the dict form the model pairs are de-duplicated the way a dict
+        of the real keys is; for the pairs form they stay sequential."""
+        real, mod, seq = [], {}, []
+        for key, v in items:
+            key = tuple(key)
+            real.append((self.rkey(key), self.held[v] if key[0] == "elem" else v))
+            ck = (key[0], self.model.canon(key[1])) + tuple(key[2:])
+            mod[ck] = (key, ("slot", v) if key[0] == "elem" else v)
+            seq.append(mod[ck])
+        return real, (list(mod.values()) if form == "dict" else seq)
+
+    def uncanon(self, elem):
+        k = elem if isinstance(elem, _uuid.UUID) else id(elem)
+        return self.canon_of.get(k, ("foreign", repr(elem)[:40]))
+
+    def unoff(self, off):
+        if not isinstance(off, self.gtirb.Offset):
+            return ("not-an-offset", repr(off)[:40])
+        return (self.uncanon(off.element_id), off.displacement)
+
+    def same(self, got, want):
+        """compare a real result with a model result"""
+        if isinstance(want, dict):
+            return isinstance(got, dict) and got == want
+        return got == want and type(got) is type(want)
+
+    def check(self):
+        m, md = self.m, self.model
+        flat = md.flat()
+        ok, val = self.lib(lambda: (len(m), bool(m), list(m), list(m.items()), list(m.node_keys()), dict(m)))
+        self.expect(ok, val, None, "len/bool/iter/items/node_keys")
+        ln, bl, it, items, nk, asdict = val
+        got_it = [self.unoff(o) for o in it]
+        if ln != len(flat) or bl != bool(flat) or sorted(got_it, key=repr) != sorted(flat, key=repr):
+            self.fail("mapping-diff", {"what": "len/bool/iter", "expected": {"len": len(flat), "bool": bool(flat), "offsets": sorted(map(repr, flat))}, "got": {"len": ln, "bool": bl, "offsets": sorted(map(repr, got_it))}})
+        got_items = sorted(((self.unoff(o), v) for o, v in items), key=repr)
+        if got_items != sorted(flat.items(), key=repr):
+            self.fail("mapping-diff", {"what": "items", "expected": repr(sorted(flat.items(), key=repr)), "got": repr(got_items)})
+        if sorted((self.uncanon(x) for x in nk), key=repr) != sorted(md.data, key=repr):
+            self.fail("mapping-diff", {"what": "node_keys (elements)", "expected": sorted(map(repr, md.data)), "got": sorted(repr(self.uncanon(x)) for x in nk)})
+        ok, eq = self.lib(lambda: m == asdict and len(asdict) == len(flat))
+        self.expect(ok, eq, None, "==")
+        if not eq:
+            self.fail("mapping-diff", {"what": "mapping != dict(mapping)"})
+        for e in range(len(self.elems)):
+            ce = md.canon(e)
+            ok, val = self.lib(lambda: (self.elems[e] in m, m.get(self.elems[e], _MISSING)))
+            self.expect(ok, val, None, "element lookup")
+            has, sub = val
+            if has != (ce in md.data) or (sub is _MISSING) != (ce not in md.data) or (sub is not _MISSING and not self.same(sub, md.data[ce])):
+                self.fail("mapping-diff", {"what": "element view", "elem": e, "expected": repr(md.data.get(ce, "absent")), "got": repr(sub if sub is not _MISSING else "absent"), "in": has})
+            if ce in md.data and not md.data[ce]:
+                self.count("probe.empty_inner_dict")
+            for d in range(OM_DISPS):
+                off = self.gtirb.Offset(self.elems[e], d)
+                ok, val = self.lib(lambda: (off in m, m.get(off, _MISSING)))
+                self.expect(ok, val, None, "offset lookup")
+                has, v = val
+                want = flat.get((ce, d), _MISSING)
+                if has != (want is not _MISSING) or v is not want and v != want:
+                    self.fail("mapping-diff", {"what": "offset view", "elem": e, "disp": d, "expected": repr(want if want is not _MISSING else "absent"), "got": repr(v if v is not _MISSING else "absent"), "in": has})
+        for j, h in enumerate(self.held):
+            if h != md.held[j]:
+                self.fail("mapping-diff", {"what": "caller-held inner dict", "slot": j, "expected": repr(md.held[j]), "got": repr(h)})
+
+    def do(self, op):
+        k = op["k"]
+        m, md = self.m, self.model
+        before = repr(sorted(md.flat().items(), key=repr)) + repr(sorted(md.data, key=repr))
+        key = tuple(op["key"]) if "key" in op else None
+        if key is not None and key[0] == "elem":
+            self.count("probe.key_by_element")
+        if k in ("set", "set_bad"):
+            if key[0] == "off":
+                errs, _ = md.setitem(key, op["v"])
+                ok, val = self.lib(m.__setitem__, self.rkey(key), op["v"])
+            elif "bad" in op:
+                self.count("probe.set_non_mapping")
+                errs, _ = md.setitem(key, ("bad", op["bad"]))
+                ok, val = self.lib(m.__setitem__, self.rkey(key), copy.deepcopy(OM_BAD[op["bad"]]))
+            else:
+                errs, _ = md.setitem(key, ("slot", op["slot"]))
+                ok, val = self.lib(m.__setitem__, self.rkey(key), self.held[op["slot"]])
+            self.expect(ok, val, errs, k)
+        elif k == "get":
+            errs, want = md.getitem(key)
+            ok, val = self.lib(m.__getitem__, self.rkey(key))
+            self.expect(ok, val, errs, k)
+            if not errs and not self.same(val, want):
+                self.fail("mapping-diff", {"what": "getitem", "expected": repr(want), "got": repr(val)})
+        elif k == "del":
+            errs, _ = md.delitem(key)
+            ok, val = self.lib(m.__delitem__, self.rkey(key))
+            self.expect(ok, val, errs, k)
+        elif k == "has":
+            errs, _ = md.getitem(key)
+            ok, val = self.lib(m.__contains__, self.rkey(key))
+            self.expect(ok, val, None, k)
+            if bool(val) != (errs is None):
+                self.fail("mapping-diff", {"what": "in", "expected": errs is None, "got": bool(val)})
+        elif k in ("sub_set", "sub_del"):
+            errs, sub = md.getitem(("elem", key[1]))
+            d = op["d"]
+            if errs is None and k == "sub_del" and d not in sub:
+                errs = ("KeyError",)
+            elif errs is None and k == "sub_set":
+                sub[d] = op["v"]
+            elif errs is None:
+                del sub[d]
+
+            def through():
+                if k == "sub_set":
+                    m[self.rkey(("elem", key[1]))][d] = op["v"]
+                else:
+                    del m[self.rkey(("elem", key[1]))][d]
+
+            ok, val = self.lib(through)
+            self.expect(ok, val, errs, k)
+        elif k in ("held_set", "held_del"):
+            j, d = op["slot"], op["d"]
+            if any(sub is md.held[j] for sub in md.data.values()):
+                self.count("probe.mutation_through_held_dict")
+            if k == "held_set":
+                md.held[j][d] = op["v"]
+                self.held[j][d] = op["v"]
+            else:
+                md.held[j].pop(d, None)
+                self.held[j].pop(d, None)
+        elif k == "mget":
+            errs, want = md.getitem(key)
+            if "default" in op:
+                ok, val = self.lib(m.get, self.rkey(key), op["default"])
+                want = op["default"] if errs else want
+            else:
+                ok, val = self.lib(m.get, self.rkey(key))
+                want = None if errs else want
+            self.expect(ok, val, None, k)
+            if not self.same(val, want):
+                self.fail("mapping-diff", {"what": "get", "expected": repr(want), "got": repr(val)})
+        elif k == "pop":
+            errs, want = md.getitem(key)
+            if not errs:
+                want = dict(want) if isinstance(want, dict) else want
+                md.delitem(key)
+            if "default" in op:
+                ok, val = self.lib(m.pop, self.rkey(key), op["default"])
+                want = op["default"] if errs else want
+                errs = None
+            else:
+                ok, val = self.lib(m.pop, self.rkey(key))
+            self.expect(ok, val, errs, k)
+            if not errs and not self.same(val, want):
+                self.fail("mapping-diff", {"what": "pop", "expected": repr(want), "got": repr(val)})
+        elif k in ("setdefault", "setdefault_bad"):
+            errs, want = md.getitem(key)
+            if key[0] == "off":
+                default, mdefault = op["v"], op["v"]
+            elif "bad" in op:
+                default, mdefault = copy.deepcopy(OM_BAD[op["bad"]]), ("bad", op["bad"])
+            else:
+                default, mdefault = self.held[op["slot"]], ("slot", op["slot"])
+            if errs:
+                errs, _ = md.setitem(key, mdefault)
+                want = None if errs else (md.held[op["slot"]] if key[0] == "elem" else op["v"])
+            ok, val = self.lib(m.setdefault, self.rkey(key), default)
+            self.expect(ok, val, errs, k)
+            if not errs and not self.same(val, want):
+                self.fail("mapping-diff", {"what": "setdefault", "expected": repr(want), "got": repr(val)})
+        elif k == "update":
+            items, mitems = self.items_of(op["items"], op.get("form"))
+            for mk, mv in mitems:
+                md.setitem(mk, mv)
+            ok, val = self.lib(m.update, dict(items) if op.get("form") == "dict" else items)
+            self.expect(ok, val, None, k)
+        elif k == "popitem":
+            offs = md.offsets()
+            ok, val = self.lib(m.popitem)
+            if not offs:
+                self.count("probe.popitem_without_offsets")
+                self.expect(ok, val, ("KeyError",), k)
+            else:
+                self.expect(ok, val, None, k)
+                o, v = self.unoff(val[0]), val[1]
+                if o not in md.flat() or md.flat()[o] != v:
+                    self.fail("mapping-diff", {"what": "popitem returned something that is not in the mapping", "got": repr((o, v))})
+                del md.data[o[0]][o[1]]
+        elif k == "clear":
+            # Offset view (MutableMapping): every Offset goes away.  The
+            # element view afterwards is not constrained by C20's op list;
+            # the model follows the mixin (popitem until empty).
+            ok, val = self.lib(m.clear)
+            self.expect(ok, val, None, k)
+            for sub in md.data.values():
+                sub.clear()
+        after = repr(sorted(md.flat().items(), key=repr)) + repr(sorted(md.data, key=repr))
+        if after != before:
+            self.mutations += 1
+        self.check()
+
+    def _run(self):
+        self.build()
+        self.check()
+        for i, op in enumerate(self.ops):
+            if not self.legal(op):
+                self.skip(op)
+                continue
+            self.begin(i, op)
+            self.do(op)
+
+
+def _gen_offsetmap(r, params):
+    ne = r.randint(1, 4)
+    elems = []
+    for _ in range(ne):
+        if r.random() < 0.6:
+            elems.append({"t": "uuid", "v": r.randrange(3)})  # equal-but-distinct UUIDs happen
+        else:
+            elems.append({"t": "node"})
+    held = [[[r.randrange(OM_DISPS), r.randrange(10)] for _ in range(r.randint(0, 3))] for _ in range(3)]
+    held = [[list(x) for x in dict((d, v) for d, v in h).items()] for h in held]
+
+    def key(p_elem=0.3):
+        e = r.randrange(ne)
+        return ["elem", e] if r.random() < p_elem else ["off", e, r.randrange(OM_DISPS)]
+
+    def items():
+        out = []
+        for _ in range(r.randint(0, 3)):
+            kk = key(0.3)
+            out.append([kk, r.randrange(3) if kk[0] == "elem" else r.randrange(10)])
+        return out
+
+    setup = {"elems": elems, "held": held, "init": items() if r.random() < 0.4 else [], "init_form": r.choice(["dict", "pairs"])}
+    ops = []
+    for _ in range(r.randint(3, params.get("max_ops", MAX_OPS))):
+        x = r.random()
+        if x < 0.22:
+            kk = key(0.3)
+            if kk[0] == "off":
+                op = {"k": "set", "key": kk, "v": r.randrange(10)}
+            elif r.random() < 0.15:
+                op = {"k": "set_bad", "key": kk, "bad": r.choice(OM_BAD_PICK)}
+            else:
+                op = {"k": "set", "key": kk, "slot": r.randrange(3)}
+        elif x < 0.30:
+            op = {"k": "get", "key": key()}
+        elif x < 0.46:
+            op = {"k": "del", "key": key(0.25)}
+        elif x < 0.50:
+            op = {"k": "has", "key": key()}
+        elif x < 0.58:
+            op = {"k": r.choice(["sub_set", "sub_set", "sub_del"]), "key": ["elem", r.randrange(ne)], "d": r.randrange(OM_DISPS), "v": r.randrange(10)}
+        elif x < 0.66:
+            op = {"k": r.choice(["held_set", "held_del"]), "slot": r.randrange(3), "d": r.randrange(OM_DISPS), "v": r.randrange(10)}
+        elif x < 0.71:
+            op = {"k": "mget", "key": key()}
+            if r.random() < 0.5:
+                op["default"] = r.choice([None, 77, "dflt"])
+        elif x < 0.80:
+            op = {"k": "pop", "key": key()}
+            if r.random() < 0.5:
+                op["default"] = r.choice([None, 77, "dflt"])
+        elif x < 0.88:
+            kk = key(0.4)
+            if kk[0] == "off":
+                op = {"k": "setdefault", "key": kk, "v": r.randrange(10)}
+            elif r.random() < 0.15:
+                op = {"k": "setdefault_bad", "key": kk, "bad": r.choice(OM_BAD_PICK)}
+            else:
+                op = {"k": "setdefault", "key": kk, "slot": r.randrange(3)}
+        elif x < 0.94:
+            op = {"k": "update", "items": items(), "form": r.choice(["dict", "pairs"])}
+        elif x < 0.98:
+            op = {"k": "popitem"}
+        else:
+            op = {"k": "clear"}
+        ops.append(op)
+    return setup, ops
+
+
+# ==========================================================================
+# 5. IdentitySet vs a set of id()s
+# ==========================================================================
+
+IDSET_NSETS = 3
+IDSET_INPLACE = {"ior": operator.ior, "isub": operator.isub, "iand": operator.iand, "ixor": operator.ixor}
+IDSET_BINOP = {"or": operator.or_, "and": operator.and_, "sub": operator.sub, "xor": operator.xor}
+IDSET_CMP = {"eq": operator.eq, "ne": operator.ne, "le": operator.le, "lt": operator.lt, "ge": operator.ge, "gt": operator.gt}
+
+
+def _idset_model_op(name, a, b):
+    if name in ("ior", "or"):
+        return a | b
+    if name in ("isub", "sub"):
+        return a - b
+    if name in ("iand", "and"):
+        return a & b
+    return a ^ b
+
+
+class IdSetDriver(_Base):
+    machine = "idset"
+
+    def build(self):
+        from gtirb_rewriting._adt import IdentitySet
+
+        self.cls = IdentitySet
+        self.objs = []
+        for o in self.setup["objs"]:
+            t, v = o["t"], o["v"]
+            if t == "list":
+                x = [v]
+            elif t == "dict":
+                x = {v: v}
+            elif t == "tuple":
+                x = tuple([v, v])
+            elif t == "float":
+                x = float(v) + 0.5
+            else:
+                x = frozenset([v, v + 100])
+            self.objs.append(x)
+        if len({id(x) for x in self.objs}) != len(self.objs):
+            raise core.HarnessError("objects are not distinct")
+        self.oidx = {id(x): i for i, x in enumerate(self.objs)}
+        self.sets = [IdentitySet() for _ in range(IDSET_NSETS)]
+        self.model = [set() for _ in range(IDSET_NSETS)]
+
+    def legal(self, op):
+        n = len(self.setup["objs"])
+        if not 0 <= op.get("t", 0) < IDSET_NSETS:
+            return False
+        if "x" in op and not 0 <= op["x"] < n:
+            return False
+        if "xs" in op and not all(0 <= x < n for x in op["xs"]):
+            return False
+        if "t2" in op and not 0 <= op["t2"] < IDSET_NSETS:
+            return False
+        k = op["k"]
+        if k in IDSET_CMP or k == "isdisjoint":
+            return "t2" in op or (k == "isdisjoint" and "xs" in op)
+        if k in IDSET_INPLACE or k in IDSET_BINOP:
+            return "t2" in op or "xs" in op
+        return k in ("add", "discard", "remove", "pop", "clear", "contains", "ctor")
+
+    def ids(self, s):
+        return sorted(self.oidx.get(id(x), -1) for x in s)
+
+    def operand(self, op):
+        if "t2" in op:
+            return self.sets[op["t2"]], set(self.model[op["t2"]])
+        xs = [self.objs[x] for x in op["xs"]]
+        return (tuple(xs) if op.get("form") == "tuple" else xs), set(op["xs"])
+
+    def check(self):
+        for t, s in enumerate(self.sets):
+            want = sorted(self.model[t])
+            ok, val = self.lib(lambda: (len(s), list(s), [x in s for x in self.objs]))
+            self.expect(ok, val, None, "len/iter/in")
+            ln, it, has = val
+            if ln != len(want) or self.ids(it) != want or [i for i, h in enumerate(has) if h] != want:
+                self.fail("identity-set-diff", {"set": t, "expected": want, "got": {"len": ln, "iter": self.ids(it), "in": [i for i, h in enumerate(has) if h]}})
+            vals = [repr(self.objs[i]) for i in want]
+            if len(set(vals)) < len(vals):
+                self.count("probe.equal_but_distinct_members")
+
+    def do(self, op):
+        k = op["k"]
+        t = op.get("t", 0)
+        s, m = self.sets[t], self.model[t]
+        before = [set(x) for x in self.model]
+        if k == "add":
+            if any(j in m and self.objs[j] == self.objs[op["x"]] for j in range(len(self.objs)) if j != op["x"]):
+                self.count("probe.add_equal_to_member")
+            ok, val = self.lib(s.add, self.objs[op["x"]])
+            self.expect(ok, val, None, k)
+            m.add(op["x"])
+        elif k == "discard":
+            ok, val = self.lib(s.discard, self.objs[op["x"]])
+            self.expect(ok, val, None, k)
+            m.discard(op["x"])
+        elif k == "remove":
+            ok, val = self.lib(s.remove, self.objs[op["x"]])
+            self.expect(ok, val, None if op["x"] in m else ("KeyError",), k)
+            m.discard(op["x"])
+        elif k == "pop":
+            ok, val = self.lib(s.pop)
+            self.expect(ok, val, None if m else ("KeyError",), k)
+            if m:
+                i = self.oidx.get(id(val), -1)
+                if i not in m:
+                    self.fail("identity-set-diff", {"what": "pop returned a non-member", "got": i})
+                m.discard(i)
+        elif k == "clear":
+            ok, val = self.lib(s.clear)
+            self.expect(ok, val, None, k)
+            m.clear()
+        elif k == "contains":
+            ok, val = self.lib(lambda: self.objs[op["x"]] in s)
+            self.expect(ok, val, None, k)
+            if bool(val) != (op["x"] in m):
+                self.fail("identity-set-diff", {"what": "in", "expected": op["x"] in m, "got": bool(val)})
+        elif k == "ctor":
+            xs = [self.objs[x] for x in op["xs"]]
+            ok, val = self.lib(self.cls, iter(xs) if op.get("form") == "iter" else xs)
+            self.expect(ok, val, None, k)
+            self.sets[t] = val
+            self.model[t] = set(op["xs"])
+        elif k in IDSET_INPLACE:
+            other, mo = self.operand(op)
+            if other is s:
+                self.count("probe.inplace_op_with_self")
+            ok, val = self.lib(IDSET_INPLACE[k], s, other)
+            self.expect(ok, val, None, k)
+            self.model[t] = _idset_model_op(k, m, mo)
+        elif k in IDSET_BINOP:
+            other, mo = self.operand(op)
+            ok, val = self.lib(IDSET_BINOP[k], s, other)
+            self.expect(ok, val, None, k)
+            want = sorted(_idset_model_op(k, m, mo))
+            if not isinstance(val, self.cls) or self.ids(val) != want or len(val) != len(want):
+                self.fail("identity-set-diff", {"what": "result of binary operator", "expected": want, "got": self.ids(val) if isinstance(val, self.cls) else repr(val)[:60]})
+        elif k in IDSET_CMP:
+            other, mo = self.operand(op)
+            ok, val = self.lib(IDSET_CMP[k], s, other)
+            self.expect(ok, val, None, k)
+            want = IDSET_CMP[k](set(m), mo)
+            if bool(val) != want:
+                self.fail("identity-set-diff", {"what": "comparison", "expected": want, "got": bool(val), "sets": [sorted(m), sorted(mo)]})
+        elif k == "isdisjoint":
+            other, mo = self.operand(op)
+            ok, val = self.lib(s.isdisjoint, other)
+            self.expect(ok, val, None, k)
+            if bool(val) != m.isdisjoint(mo):
+                self.fail("identity-set-diff", {"what": "isdisjoint", "expected": m.isdisjoint(mo), "got": bool(val)})
+        if self.model != before:
+            self.mutations += 1
+        self.check()
+
+    def _run(self):
+        self.build()
+        self.check()
+        for i, op in enumerate(self.ops):
+            if not self.legal(op):
+                self.skip(op)
+                continue
+            self.begin(i, op)
+            self.do(op)
+
+
+def _gen_idset(r, params):
+    n = r.randint(2, 8)
+    objs = [{"t": r.choice(["list", "dict", "tuple", "float", "frozenset"]), "v": r.randrange(2)} for _ in range(n)]
+    if r.random() < 0.7:
+        # make sure there are equal-but-distinct objects
+        objs[1] = dict(objs[0])
+    ops = []
+
+    def operand():
+        if r.random() < 0.45:
+            return {"t2": r.randrange(IDSET_NSETS)}
+        return {"xs": [r.randrange(n) for _ in range(r.randint(0, 4))], "form": r.choice(["list", "tuple"])}
+
+    for _ in range(r.randint(3, params.get("max_ops", MAX_OPS))):
+        x = r.random()
+        t = r.choice([0, 0, 0, 1, 2])
+        if x < 0.30:
+            op = {"k": "add", "t": t, "x": r.randrange(n)}
+        elif x < 0.42:
+            op = {"k": "discard", "t": t, "x": r.randrange(n)}
+        elif x < 0.50:
+            op = {"k": "remove", "t": t, "x": r.randrange(n)}
+        elif x < 0.55:
+            op = {"k": "pop", "t": t}
+        elif x < 0.57:
+            op = {"k": "clear", "t": t}
+        elif x < 0.62:
+            op = {"k": "contains", "t": t, "x": r.randrange(n)}
+        elif x < 0.67:
+            op = {"k": "ctor", "t": t, "xs": [r.randrange(n) for _ in range(r.randint(0, 4))], "form": r.choice(["list", "iter"])}
+        elif x < 0.82:
+            op = dict({"k": r.choice(sorted(IDSET_INPLACE)), "t": t}, **operand())
+        elif x < 0.92:
+            op = dict({"k": r.choice(sorted(IDSET_BINOP)), "t": t}, **operand())
+        elif x < 0.98:
+            op = {"k": r.choice(sorted(IDSET_CMP)), "t": t, "t2": r.randrange(IDSET_NSETS)}
+        else:
+            op = dict({"k": "isdisjoint", "t": t}, **operand())
+        ops.append(op)
+    return {"objs": objs}, ops
+
+
+# ==========================================================================
+# engine API
+# ==========================================================================
+
+DRIVERS = {
+    "refcache": RefDriver,
+    "retcache": RetDriver,
+    "ordering": OrderingDriver,
+    "linkedlist": LinkedListDriver,
+    "offsetmap": OMDriver,
+    "idset": IdSetDriver,
+}
+GENERATORS = {
+    "refcache": _gen_refcache,
+    "retcache": _gen_retcache,
+    "ordering": _gen_ordering,
+    "linkedlist": _gen_linkedlist,
+    "offsetmap": _gen_offsetmap,
+    "idset": _gen_idset,
+}
+
+
+def run(prop, seed, params):
+    streams = core.Streams(seed)
+    params = dict(params or {})
+    rs = streams.get("sched")
+    sigma = {"uuid_seed": rs.getrandbits(48), "salt": rs.getrandbits(64), "hashseed": core.hashseed_of(seed)}
+    weights = dict(MACHINE_WEIGHTS)
+    weights.update(params.get("machines") or {})
+    if params.get("machine"):
+        weights = {params["machine"]: 1}
+    names = sorted(weights)
+    machine = streams.get("gen.machine").choices(names, [weights[n] for n in names])[0]
+    setup, ops = GENERATORS[machine](streams.get("gen.history"), params)
+    scenario = {"engine": "ctsim", "seed": seed, "sigma": sigma, "machine": machine, "setup": setup, "ops": ops[:MAX_OPS]}
+    return scenario, execute(prop, scenario, params)
+
+
+def replay(prop, scenario, params):
+    return execute(prop, scenario, params or {})
+
+
+def execute(prop, scenario, params):
+    """Pure function of (scenario, code under test)."""
+    _install_refnode_seam()
+    sigma = scenario["sigma"]
+    core.reseed(sigma["uuid_seed"], sigma["salt"])
+    _RN["n"] = 0
+    _RN["salt"] = sigma["salt"] & core._MASK
+    stats = collections.Counter()
+    machine = scenario["machine"]
+    drv = DRIVERS[machine](prop, scenario, stats)
+    stats["machine." + machine] += 1
+    try:
+        drv.run()
+        verdict = core.result_ok(dict(stats))
+    except core.Violation as v:
+        verdict = core.result_violation(v, dict(stats))
+    verdict["meta"] = {
+        "sdig": core.digest([machine, scenario["setup"], scenario["ops"]]),
+        "nontrivial": drv.mutations > 0 and len(drv.kinds) >= 2,
+        "interleavings": [core.digest([machine] + drv.kinds)],
+        "sigma": core.digest(sigma),
+    }
+    return verdict
+
+
+def _op_str(op):
+    return op["k"] + "(" + ",".join(f"{k}={v}" for k, v in op.items() if k != "k") + ")"
+
+
+def describe(scenario):
+    return {
+        "machine": scenario["machine"],
+        "setup": scenario["setup"],
+        "ops": [_op_str(op) for op in scenario["ops"]],
+        "sigma": scenario["sigma"],
+    }
+
+
+# --------------------------------------------------------------------------
+# shrinking (every sub-sequence of ops is a valid scenario: illegal ops are
+# skipped by the drivers)
+
+
+def shrink_candidates(prop, scenario):
+    sc = scenario
+    ops = sc["ops"]
+    n = len(ops)
+
+    def with_ops(new):
+        c = copy.deepcopy(sc)
+        c["ops"] = copy.deepcopy(new)
+        return c
+
+    # drop chunks, biggest first
+    size = n // 2
+    while size >= 2:
+        for start in range(0, n, size):
+            yield with_ops(ops[:start] + ops[start + size :])
+        size //= 2
+    for i in reversed(range(n)):
+        yield with_ops(ops[:i] + ops[i + 1 :])
+    # simplify single ops
+    for i, op in enumerate(ops):
+        for key, val in op.items():
+            simpler = []
+            if key in ("es", "xs", "bs", "items") and val:
+                simpler = [val[:-1], val[1:]]
+            elif key in ("take", "n") and val is not None:
+                simpler = [None]
+            elif key == "e" and val is True:
+                simpler = [False]
+            elif key == "form" and val not in ("list", "pairs"):
+                simpler = ["pairs" if op["k"] == "update" and "items" in op else "list"]
+            elif key == "catch" and val != 99:
+                simpler = [99]
+            elif key == "how" and val != "ctor":
+                simpler = ["ctor"]
+            for sv in simpler:
+                if key == "form" and sv == "list" and op.get("form") == "self":
+                    continue
+                c = with_ops(ops)
+                c["ops"][i][key] = sv
+                yield c
+    # simplify the setup
+    setup = sc["setup"]
+    m = sc["machine"]
+    if m == "refcache":
+        if setup.get("interleave") == "convert":
+            c = copy.deepcopy(sc)
+            c["setup"]["interleave"] = "disjoint"
+            yield c
+        if setup.get("interleave") != "none" and not any(op["k"] == "gen_open" for op in ops):
+            c = copy.deepcopy(sc)
+            c["setup"]["interleave"] = "none"
+            yield c
+        for i, s in enumerate(setup["symbols"]):
+            if s["ref"] is not None:
+                c = copy.deepcopy(sc)
+                c["setup"]["symbols"][i]["ref"] = None
+                yield c
+            if s["e"]:
+                c = copy.deepcopy(sc)
+                c["setup"]["symbols"][i]["e"] = False
+                yield c
+        used = {op.get("s") for op in ops}
+        if len(setup["symbols"]) > 1 and len(setup["symbols"]) - 1 not in used and not any(op["k"] == "new_symbol" for op in ops):
+            c = copy.deepcopy(sc)
+            c["setup"]["symbols"].pop()
+            yield c
+        usedb = {op.get(k) for op in ops for k in ("b", "to")} | {s["ref"] for s in setup["symbols"]}
+        if len(setup["blocks"]) > 1 and len(setup["blocks"]) - 1 not in usedb:
+            c = copy.deepcopy(sc)
+            c["setup"]["blocks"].pop()
+            yield c
+        for i, kind in enumerate(setup["blocks"]):
+            if kind != "data":
+                c = copy.deepcopy(sc)
+                c["setup"]["blocks"][i] = "data"
+                yield c
+    elif m == "retcache":
+        for i in range(len(setup["edges"])):
+            c = copy.deepcopy(sc)
+            del c["setup"]["edges"][i]
+            yield c
+    elif m == "offsetmap":
+        for i in range(len(setup.get("init") or [])):
+            c = copy.deepcopy(sc)
+            del c["setup"]["init"][i]
+            yield c
+        for j, h in enumerate(setup["held"]):
+            if h:
+                c = copy.deepcopy(sc)
+                c["setup"]["held"][j] = []
+                yield c
+    # simplify sigma
+    for key in ("salt", "uuid_seed"):
+        if sc["sigma"].get(key):
+            c = copy.deepcopy(sc)
+            c["sigma"][key] = 0
+            yield c
